@@ -19,6 +19,8 @@ pub enum Op {
     Reopen,
     Mro,
     Sub,
+    /// try to open the existing storage while also supplying a key pair (must be refused)
+    OpenKp,
 }
 
 pub fn op_json(op: &Op) -> Value {
@@ -33,6 +35,7 @@ pub fn op_json(op: &Op) -> Value {
         Op::Reopen => json!({"o":"reopen"}),
         Op::Mro => json!({"o":"mro"}),
         Op::Sub => json!({"o":"sub"}),
+        Op::OpenKp => json!({"o":"openkp"}),
     }
 }
 
@@ -53,7 +56,38 @@ pub fn exec(core: &mut Core, op: &Op) -> Value {
             core.subscribe();
             json!({"t":"ok"})
         }
+        Op::OpenKp => core.open_with_key_pair(),
     }
+}
+
+/// Which stores contain any 8-byte window of the secret key (raw byte scan).
+pub fn leak_scan(img: &Images) -> Value {
+    let total: usize = img.iter().map(|v| v.len()).sum();
+    if total > (4 << 20) {
+        return json!(["skipped"]);
+    }
+    let mut out: Vec<&str> = vec![];
+    for (si, v) in img.iter().enumerate() {
+        let mut found = false;
+        if v.len() >= 8 {
+            'w: for w in 0..=(32 - 8) {
+                let pat = &TEST_SECRET_KEY_BYTES[w..w + 8];
+                // cheap pre-filter on the first byte
+                let mut i = 0;
+                while i + 8 <= v.len() {
+                    if v[i] == pat[0] && &v[i..i + 8] == pat {
+                        found = true;
+                        break 'w;
+                    }
+                    i += 1;
+                }
+            }
+        }
+        if found {
+            out.push(STORES[si]);
+        }
+    }
+    json!(out)
 }
 
 #[derive(Clone, Debug)]
@@ -156,7 +190,10 @@ impl Driver {
             v.push(Op::Reopen);
             v.push(Op::Batch(vec![vec![1, 2], vec![]]));
         } else {
-            v.push(Op::Clear(0, 1));
+            // clear(start, end) is only defined for start < length
+            if len_hint > 0 {
+                v.push(Op::Clear(0, 1));
+            }
             v.push(Op::Reopen);
         }
         if len_hint > 0 {
@@ -231,6 +268,8 @@ impl Driver {
             ev["view"] = core.view();
             self.rec.end();
             let jops = core.disk.journal_from(j0);
+            ev["jn"] = json!(jops.len());
+            ev["leak"] = leak_scan(&core.disk.images());
             let nops = (core.disk.ops() - o0) as usize;
             self.rec.count("calls", 1);
             self.rec.count("storage_ops", nops as u64);
@@ -523,7 +562,7 @@ pub fn gen_op(rng: &mut StdRng, g: &GenCfg, len: u64, writable: bool) -> Op {
     }
     acc += g.p_mro;
     if x < acc {
-        return Op::Mro;
+        return if rng.gen_bool(0.25) { Op::OpenKp } else { Op::Mro };
     }
     acc += g.p_sub;
     if x < acc {
